@@ -658,6 +658,36 @@ func c07(c *Ctx) {
 		r.Check("insert-sites", n >= 10, token.NoPos, fmt.Sprintf("%d direct insert sites", n))
 	})
 
+	if !c.Sub {
+		c.Rule("C07.R9", "merge keys of the pipeline stages: where the tag stage and the cloud stage merge series into the map they forward, every key is FormatTagsKey of the element's (possibly changed) source and tags, computed after the change - a stale or shortcut key lets two entries of one series coexist, i.e. the collision merge never happens (C10.R4 / C11 re-keying checks, shared)", 8, func(r *Rule) {
+			for _, share := range []struct {
+				run  func(*Ctx)
+				rule string
+				pick func(key string) bool
+			}{
+				{c10, "C10.R4", func(k string) bool { return strings.HasSuffix(k, ":rekeyed") }},
+				{c11, "C11.R2", func(k string) bool { return strings.HasSuffix(k, ":hit") }},
+				{c11, "C11.R3", func(k string) bool { return strings.HasSuffix(k, ":rekeyed") }},
+			} {
+				sub := &Ctx{W: c.W, Prop: c.Prop, Tier: c.Tier, known: c.known, Sub: true}
+				share.run(sub)
+				for _, sr := range sub.Rules {
+					if sr.ID != share.rule {
+						continue
+					}
+					for _, o := range sr.Obls {
+						if share.pick(o.Key) {
+							o2 := *o
+							o2.Rule = "C07.R9"
+							o2.Key = sr.ID + "/" + o.Key
+							r.Obls = append(r.Obls, &o2)
+						}
+					}
+				}
+			}
+		})
+	}
+
 	c.Rule("C07.R6", "four-type exhaustiveness: a function traversing >= 2 of Counters/Timers/Gauges/Sets of one MetricMap traverses all four", 15, func(r *Rule) {
 		fourTypeRule(c, r, nil)
 	})
